@@ -1,9 +1,9 @@
 package syntax
 
 // Bounded stand-in for the trusted contract of (*BmPrefix).Scan (and, through it, of newBmPrefix's tables):
-// every pattern over a 5-letter alphabet up to a length bound, both directions, both case modes, against every
+// every pattern over a 6-letter alphabet up to a length bound, both directions, both case modes, against every
 // text up to a length bound and every start index, compared with the naive first-occurrence search that the
-// contract states. The alphabet mixes ASCII (both cases), Latin-1 and a rune >= U+0100 so that the ASCII table,
+// contract states. The alphabet mixes ASCII (both cases), Latin-1, a rune >= U+0100 and an astral rune so that the ASCII table,
 // the per-page tables and the case folding are all exercised.
 // Labelled "bounded" in the evidence; never counted as proved.
 
@@ -54,10 +54,15 @@ func standinPatAt(pat []rune, ci bool, text []rune, q int) bool {
 	return true
 }
 
+func standinScan(b *BmPrefix, text []rune, index int) (r int, panicked any) {
+	defer func() { panicked = recover() }()
+	return b.Scan(text, index, 0, len(text)), nil
+}
+
 func TestStandinBM(t *testing.T) {
 	maxPat := standinEnvInt("STANDIN_BM_PAT", 3)
 	maxText := standinEnvInt("STANDIN_BM_TEXT", 5)
-	alpha := []rune{'a', 'b', 'A', 0xE9, 0x100}
+	alpha := []rune{'a', 'b', 'A', 0xE9, 0x100, 0x1F600}
 	cases := 0
 	bad := 0
 	standinWords(alpha, maxPat, 1, func(p []rune) {
@@ -65,11 +70,21 @@ func TestStandinBM(t *testing.T) {
 			for _, rtl := range []bool{false, true} {
 				pat := append([]rune(nil), p...)
 				b := newBmPrefix(pat, ci, rtl)
+				if b == nil {
+					continue // no Boyer-Moore prefix is built for this pattern (e.g. it contains an astral rune)
+				}
 				lp := append([]rune(nil), b.pattern...) // lower-cased by the constructor when ci
 				standinWords(alpha, maxText, 0, func(text []rune) {
 					for index := 0; index <= len(text); index++ {
 						cases++
-						got := b.Scan(text, index, 0, len(text))
+						got, panicked := standinScan(b, text, index)
+						if panicked != nil {
+							if bad < 5 {
+								bad++
+								fmt.Printf("STANDIN-MISMATCH pattern=%q ci=%v rtl=%v text=%q index=%d Scan panics: %v\n", string(p), ci, rtl, string(text), index, panicked)
+							}
+							continue
+						}
 						want := -1
 						if !rtl {
 							for q := index; q+len(lp) <= len(text); q++ {
